@@ -235,3 +235,73 @@ Example ex_same_decode :
   decode_flat ex_sliced = decode_flat ex_fresh /\
   decode_nested ex_sliced = [None; Some (EParts [[]; [Some 3; Some 4; Some 5; Some 6]%Z])].
 Proof. vm_compute. repeat split; reflexivity. Qed.
+
+(* ================================================================== *)
+(* ---- several sources brought together (pd.concat of GeoSeries / frames whose
+        geometry columns may differ in coordinate subtype or kind): Model/DeriveMulti.v.
+        Whichever regime pandas chooses (same dtype: _concat_same_type; otherwise
+        object arrays of the scalars), the elements are the concatenation of
+        Python's slices of the sources; with any history after it, every slot-wise
+        quantity of the result is the same selection of the sources' quantities.
+        That pandas picks the object regime exactly when the dtypes differ, and what
+        a scalar of another subtype becomes when it is put into an array, is checked
+        on every run by harness/c16_mixed.py, not proved. ---- *)
+From SP Require Import Model.DeriveMulti Proofs.DeriveMultiProofs.
+
+Theorem C16_concat_sources_spec : forall (X : Type) (na : X) srcs ps,
+  concat_pieces na srcs ps =
+  pybind (collect (map (fun '(k, a, b, s) => py_slice na (nth k srcs []) a b s) ps))
+         concat_same_type.
+Proof. exact @concat_pieces_spec. Qed.
+Print Assumptions C16_concat_sources_spec.
+
+Theorem C16_concat_sources_nostep : forall (X : Type) (na : X) srcs
+  (ps : list (nat * option Z * option Z)),
+  concat_pieces na srcs (map (fun '(k, a, b) => (k, a, b, None)) ps) =
+  match ps with
+  | [] => ValueError
+  | _ => Ok (concat (map (fun '(k, a, b) => py_slice1 na (nth k srcs []) a b) ps))
+  end.
+Proof. exact @concat_pieces_nostep. Qed.
+Print Assumptions C16_concat_sources_nostep.
+
+Theorem C16_concat_sources_object_regime : forall (X : Type) (na : X) srcs ps,
+  concat_pieces_object na srcs ps = concat_pieces na srcs ps.
+Proof. exact @concat_pieces_object_eq. Qed.
+Print Assumptions C16_concat_sources_object_regime.
+
+Theorem C16_multi_histories : forall (X Y : Type) (g : X -> Y) (naX : X) (naY : Y),
+  g naX = naY ->
+  forall srcs ps steps,
+  run_multi naY (map (map g) srcs) ps steps
+  = pymap (map g) (run_multi naX srcs ps steps).
+Proof. exact @run_multi_map. Qed.
+Print Assumptions C16_multi_histories.
+
+Theorem C16_multi_bounds : forall srcs ps steps,
+  run_multi nanbox (map (map elem_bbox) srcs) ps steps
+  = pymap (map elem_bbox) (run_multi None srcs ps steps).
+Proof. exact multi_bounds. Qed.
+Print Assumptions C16_multi_bounds.
+
+Theorem C16_multi_isna : forall (srcs : list (list (option elem))) ps steps,
+  run_multi true (map isna srcs) ps steps
+  = pymap isna (run_multi None srcs ps steps).
+Proof. exact multi_isna. Qed.
+Print Assumptions C16_multi_isna.
+
+(* non-vacuity: an int64 source and a float64 source (values scaled as in Model/Num.v) *)
+Definition ex_ints : list (option elem) :=
+  [Some (EPoint (Some 1) (Some 2)); None; Some (EPoint (Some 3) (Some 4))]%Z.
+Definition ex_floats : list (option elem) :=
+  [Some (EPoint (Some 5) (Some 15)); None]%Z.
+
+Example ex_multi :
+  run_multi None [ex_ints; ex_floats]
+    [(1, None, None, None); (0, None, None, Some (-1)%Z); (1, Some 5%Z, None, None)]%nat
+    [TakeIdx [4; 0; (-1)]%Z false]
+  = Ok [Some (EPoint (Some 1) (Some 2)); Some (EPoint (Some 5) (Some 15));
+        Some (EPoint (Some 1) (Some 2))]%Z
+  /\ concat_pieces None [ex_ints; ex_floats] [] = ValueError
+  /\ concat_pieces None [ex_ints; ex_floats] [(0%nat, None, None, Some 0%Z)] = ValueError.
+Proof. vm_compute. repeat split; reflexivity. Qed.
